@@ -248,7 +248,7 @@ pub fn lane_client_table(ctx: &mut Ctx) {
             _ => continue,
         };
         let nr = world::net_req(net);
-        let mut check = |name: &str, attached: u128, needed: u128, ctx: &mut Ctx| {
+        let check = |name: &str, attached: u128, needed: u128, ctx: &mut Ctx| {
             ctx.cov.count("c16_client_table_cells");
             ctx.cov.eval(Some(fp_str(&format!("c16client|{}|{}|{}", name, gen::net_name(net), needed))));
             if attached < needed {
